@@ -171,6 +171,9 @@ class Desugarer:
             path = op.get('fn_resolved') or op.get('fn')
             if path in self.raw and self.raw[path]['kind'] != 'Closure':
                 return (path, [], None)
+            if path:
+                # a function of another crate (`.and_then(VecDeque::pop_front)`): becomes a plain call
+                return ('extern:' + path, [], None)
             return None
         if depth > 6 or op.get('k') not in ('move', 'copy') or op['place']['p']:
             return None
@@ -193,6 +196,12 @@ class Desugarer:
         """Splice the closure body; returns the entry block. args: operands for the closure's
         parameters; dest_place receives the result; control continues at `target`."""
         cpath, upvars, _cl = clos
+        if cpath.startswith('extern:'):
+            fn = cpath[len('extern:'):]
+            B.expanded.append(cpath)
+            return B.block([], {'k': 'call', 'decl': fn, 'full': fn, 'callee': fn, 'local': False, 'targs': [],
+                                'args': list(args), 'dest': dest_place, 'target': target, 'unwind': 'continue',
+                                'span': span, 'exp': False, 'synthetic': True})
         g = self.raw[cpath]
         loff, boff, poff = len(B.locals), len(B.blocks), len(B.promoted)
         B.locals += g['locals']
@@ -253,11 +262,15 @@ class Desugarer:
         return B.block(binds, goto(boff, span))
 
     def param_ty(self, clos, i):
+        if clos[0].startswith('extern:'):
+            return ''
         g = self.raw[clos[0]]
         idx = (1 if g['kind'] != 'Closure' else 2) + i
         return g['locals'][idx]['ty'] if idx < len(g['locals']) and idx <= g['arg_count'] else ''
 
     def ret_ty(self, clos):
+        if clos[0].startswith('extern:'):
+            return '_'
         return self.raw[clos[0]]['locals'][0]['ty']
 
     # ------------------------------------------------------------------
@@ -556,6 +569,8 @@ class Desugarer:
         span = t['span']
         if t['target'] is None or len(t['args']) != 2:
             return False
+        if clos[0].startswith('extern:'):
+            return False
         g = self.raw[clos[0]]
         n = g['arg_count'] - 1
         tup = t['args'][1]
@@ -601,8 +616,8 @@ class Desugarer:
                 continue
             t = b['term']
             callee = t.get('callee', '')
-            if not callee or t.get('synthetic'):
-                continue
+            if not callee or (t.get('synthetic') and not _is(callee, ('Iterator::next',))):
+                continue      # (a synthetic next may sit on an adaptor that a later, fuller pass expands)
             kind = _is(callee, ITER_CONSUMERS)
             if kind and len(t['args']) == 2:
                 clos = self.closure_of(B, t['args'][1])
@@ -659,6 +674,19 @@ class Desugarer:
                     B.expanded.append('?')
                     return True
                 continue
+            if _is(callee, ('bool::then_some',)) and len(t['args']) == 2 and t['target'] is not None:
+                # b.then_some(v): Some(v) when b, None otherwise - a branch, not an opaque call
+                span = t['span']
+                yes = B.block([assign_place(t['dest'], agg_variant(OPT, 'Some', [t['args'][1]]), span)],
+                              goto(t['target'], span))
+                no = B.block([assign_place(t['dest'], agg_variant(OPT, 'None', []), span)], goto(t['target'], span))
+                cond = B.local('bool')
+                B.blocks[bi] = dict(B.blocks[bi], stmts=B.blocks[bi]['stmts'] + [assign(cond, use(t['args'][0]), span)],
+                                    term={'k': 'switch', 'discr': cp(cond), 'targets': [[0, no]], 'otherwise': yes,
+                                          'span': span, 'exp': True})
+                B._defs = None
+                B.expanded.append('then_some')
+                return True
             if _is(callee, ('Entry::and_modify',)) and len(t['args']) == 2 and t['target'] is not None:
                 clos = self.closure_of(B, t['args'][1])
                 if clos and self.should_expand(clos[0], 'Entry::and_modify', B.j):
